@@ -1,0 +1,29 @@
+//go:build verif
+
+// Contracts for govc (contract-based verification, /verif). Comment-only file.
+
+package common
+
+//@ assume func (s *Snapshot) PayloadHash
+//@   requires s != nil && s.Version == SnapshotVersionCommonEncoding
+//@   modifies nothing
+
+// ───────────── round.go (C19, C18) ─────────────
+
+//@ spec SnapSliceOK(ss []*Snapshot) bool = forall i int :: 0 <= i && i < len(ss) ==> ss[i] != nil && ss[i].Timestamp < 9223372036854775808
+//@ spec SpanOK(ss []*Snapshot) bool = forall i, j int :: 0 <= i && i < len(ss) && 0 <= j && j < len(ss) ==> ss[i].Timestamp < ss[j].Timestamp + config.SnapshotRoundGap
+
+//@ func ComputeRoundHash$1
+//@   property C19
+//@   requires SnapSliceOK(snapshots) && 0 <= i && i < len(snapshots) && 0 <= j && j < len(snapshots)
+//@   pure
+//@   ensures result <==> snapshots[i].Timestamp < snapshots[j].Timestamp || (snapshots[i].Timestamp == snapshots[j].Timestamp && lexlt(snapshots[i].Hash, snapshots[j].Hash))
+
+//@ func ComputeRoundHash
+//@   property C19
+//@   requires len(snapshots) > 0 && SnapSliceOK(snapshots) && SpanOK(snapshots)
+//@   modifies snapshots[..]
+//@   ensures [bounds] result0 <= result1 && result1 < result0 + config.SnapshotRoundGap
+//@   ensures [range] forall i int :: 0 <= i && i < len(snapshots) ==> result0 <= snapshots[i].Timestamp && snapshots[i].Timestamp <= result1
+//@   loop 0 invariant SnapSliceOK(snapshots) && forall k int :: 0 <= k && k <= rangeindex ==> snapshots[k].Version <= version
+//@   loop 1 invariant SnapSliceOK(snapshots) && (forall k int :: 0 <= k && k < len(snapshots) ==> snapshots[k].Version <= version && snapshots[k].Timestamp <= end)
